@@ -418,7 +418,17 @@ def run(rep):
     # keys with spaces are re-joined
     joins = [x for x in walk(pm.body) if x.get("k") == "Adt" and x["adt"].endswith("tokeniser::Token") and x["variant"] == "Identifier"
              and call_is(peel(x["fields"][0]["e"]), "::join") and lit(peel(x["fields"][0]["e"])["args"][1]) == ("s", " ")]
-    rep.check(len(joins) >= 1, "K-MOD", "K-MOD/keys-with-spaces", pm.sp, "identifier tokens split at spaces are joined back with a space", "%d join sites" % len(joins))
+    import keymodel
+    krows, kun = keymodel.evaluate(F, pm)
+    if krows is None:
+        # outside the evaluator's subset: the structural form (a `join(" ")` feeding an Identifier token) decides
+        rep.note("key-merging model not applicable (%s); structural rule decides" % kun)
+        rep.check(len(joins) >= 1, "K-MOD", "K-MOD/keys-with-spaces", pm.sp, "identifier tokens split at spaces are joined back with a space", "%d join sites; model: %s" % (len(joins), kun))
+    else:
+        kbad = [r for r in krows if not r[3]]
+        rep.check(not kbad, "K-MOD", "K-MOD/keys-with-spaces", pm.sp, "the tokens handed to the key parser are the key's tokens with every run of identifiers joined by single spaces (all %d token vectors up to length 4)" % len(krows),
+                  None if not kbad else "tokens %s -> %s, expected %s" % (list(kbad[0][0]), kbad[0][2], kbad[0][1]))
+        rep.extra["key_model_vectors"] = len(krows)
 
     # ---------------------------------------------------------------- T-CONJ
     # the entry vector: the one the and-group result is built from
